@@ -71,6 +71,8 @@ def check(case):
         yks.append(tr.evals[-1][0])
         pf = get_partial_pressures(case["T"], mix, build.composition(x, case["basis"]))
         pfs.append((float(pf[0]), float(pf[1])))
+        if not all(math.isfinite(v) and v > 0 for v in pfs[-1]):
+            raise Discard("feed partial pressure under/overflows (activity coefficient outside the double range): inversion undefined")
     feed = [build.composition(x, case["basis"]) for x in case["xs"]]
 
     # (i)+(ii) curve from the solver's fluxes under the same permeate condition
@@ -91,13 +93,18 @@ def check(case):
         for part in ("mass", "molar"):
             pp = _pp(mix, case, ystar, part)
             inv[part] = tuple(max(j[i] / (pf[i] - pp[i]), 0.0) if pf[i] != pp[i] else math.inf for i in (0, 1))
-        match = [part for part in ("molar", "mass") if all(relerr(got[i].value, inv[part][i]) <= 1e-10 for i in (0, 1))]
+        # a component whose feed-side partial pressure is exactly 0 (activity coefficient underflow) or equals the permeate-side
+        # pressure has no defined permeance (0/0): nothing to compare for it
+        defined = [i for i in (0, 1) if pf[i] > 0 and all(math.isfinite(inv[part][i]) for part in ("mass", "molar"))]
+        if not defined:
+            raise Discard("zero driving force for both components")
+        match = [part for part in ("molar", "mass") if all(relerr(got[i].value, inv[part][i]) <= 1e-10 for i in defined)]
         require(match, "point %d: curve permeances %r are not flux / (feed - permeate partial pressure) = %r (mole-fraction partition) / %r "
                        "(mass-fraction partition)", k, (got[0].value, got[1].value), inv["molar"], inv["mass"])
         # round trip against the permeances the fluxes were computed with
         ppk = _pp(mix, case, yks[k], "mass")
         bad = None
-        for i in (0, 1):
+        for i in defined:
             pps = _pp(mix, case, ystar, match[0])
             den = abs(pf[i] - pps[i])
             slack = 2 * abs(pps[i] - _pp(mix, case, yks[k], match[0])[i]) / den + 1e-9 if den > 0 else math.inf
@@ -110,7 +117,7 @@ def check(case):
         if bad is not None:
             d7 = (mode == "pressure" and case["perm"]["p"] > 0 and "molar" in match
                   and all(relerr(inv["mass"][i], perms[i]) <= 2 * abs(_pp(mix, case, ystar, "mass")[i] - ppk[i]) /
-                          max(abs(pf[i] - _pp(mix, case, ystar, "mass")[i]), 1e-300) + 1e-9 for i in (0, 1)))
+                          max(abs(pf[i] - _pp(mix, case, ystar, "mass")[i]), 1e-300) + 1e-9 for i in defined))
             if d7 and findings.is_known("D7", ID):
                 known.append("D7")
             else:
